@@ -13,6 +13,7 @@ from quara.objects.qoperations import SetQOperations
 from quara.protocol.qtomography.standard.standard_qtomography import StandardQTomography
 from quara.protocol.qtomography.standard.standard_qpt import calc_c_qpt
 from quara.qcircuit.experiment import Experiment
+from quara.utils import matrix_util
 from quara.utils.number_util import to_stream
 
 
@@ -131,6 +132,41 @@ class StandardQmpt(StandardQTomography):
 
     def estimation_object_type(self) -> type:
         return MProcess
+
+    def _generate_matS(self) -> np.ndarray:
+        # the first row of the last HS is e_0 - (sum of the first rows of the other HSs)
+        size = self._experiment.states[0].dim ** 2
+        matS = np.zeros((size, self.num_variables), dtype=np.float64)
+        for outcome in range(self._num_outcomes - 1):
+            start = outcome * size ** 2
+            matS[:, start : start + size] = np.eye(size)
+        return matS
+
+    def _calc_mse_linear_analytical_mode_qoperation(
+        self, qope: QOperation, data_num_list: List[int]
+    ) -> np.float64:
+        val = self._calc_mse_linear_analytical_mode_var(qope, data_num_list)
+        if qope.on_para_eq_constraint:
+            # add Tr[S V(v^{L}) S^T], the error of the implied first row (cf. StandardPovmt)
+            matS = self._generate_matS()
+            ScovST = matrix_util.calc_conjugate(
+                matS, self.calc_covariance_linear_mat_total(qope, data_num_list)
+            )
+            val = val + np.trace(ScovST)
+        return val
+
+    def calc_cramer_rao_bound(
+        self, var: Union[QOperation, np.ndarray], N: int, list_N: List[int]
+    ) -> np.ndarray:
+        val = self._calc_cramer_rao_bound(var, N, list_N)
+        if self.on_para_eq_constraint:
+            # add Tr[S F^{-1} S^T]/N, the bound of the implied first row (cf. StandardPovmt)
+            matS = self._generate_matS()
+            weights = [tmp_N / N for tmp_N in list_N]
+            fisher = self.calc_fisher_matrix_total(var, weights)
+            ScovST = matrix_util.calc_conjugate(matS, np.linalg.inv(fisher))
+            val = val + np.trace(ScovST) / N
+        return val
 
     def is_valid_experiment(self) -> bool:
         is_ok_states = self.is_all_same_composite_systems(self._experiment.states)
